@@ -219,6 +219,11 @@ func (s *store) CreateFamily(familyName string, option FamilyOption) (family Fam
 	s.rwMutex.Lock()
 	defer s.rwMutex.Unlock()
 
+	// double check under write lock, maybe other goroutine creates the family at the same time
+	if family, ok = s.families[familyName]; ok {
+		return family, nil
+	}
+
 	if !fileutil.Exist(familyPath) {
 		// create new family
 		option.Name = familyName
